@@ -358,6 +358,7 @@ public:
 		if (std::regex_match(digits, edecimal_regex)) {
 			// found a edecimal representation
 			clear();
+			setpos();
 			auto it = digits.begin();
 			if (*it == '-') {
 				setneg();
